@@ -9,6 +9,7 @@
 #include <stdlib.h>
 #include <string.h>
 #include <stdio.h>
+#include <limits.h>
 
 #include <jwt.h>
 
@@ -158,6 +159,24 @@ static int __check_str_claim(jwt_t *jwt, jwt_claims_t claim, char *claim_str)
 	return 0;
 }
 
+/* The leeway is never negative here (a negative one turns the check off), but
+ * it can be as large as the type allows: clamp instead of overflowing. */
+static long __time_minus(time_t now, time_t leeway)
+{
+	if ((long)now < LONG_MIN + (long)leeway)
+		return LONG_MIN;
+
+	return (long)now - (long)leeway;
+}
+
+static long __time_plus(time_t now, time_t leeway)
+{
+	if ((long)now > LONG_MAX - (long)leeway)
+		return LONG_MAX;
+
+	return (long)now + (long)leeway;
+}
+
 static jwt_claims_t __verify_claims(jwt_t *jwt)
 {
 	jwt_checker_t *checker = jwt->checker;
@@ -172,7 +191,7 @@ static jwt_claims_t __verify_claims(jwt_t *jwt)
 		err = jwt_claim_get(jwt, &jval);
 
 		if (err == JWT_VALUE_ERR_NONE) {
-			if (jval.int_val <= (now - checker->c.exp)) {
+			if (jval.int_val <= __time_minus(now, checker->c.exp)) {
 				failed |= JWT_CLAIM_EXP;
 			}
 		} else if (err != JWT_VALUE_ERR_NOEXIST)
@@ -185,7 +204,7 @@ static jwt_claims_t __verify_claims(jwt_t *jwt)
 		err = jwt_claim_get(jwt, &jval);
 
 		if (err == JWT_VALUE_ERR_NONE) {
-			if (jval.int_val > (now + checker->c.nbf)) {
+			if (jval.int_val > __time_plus(now, checker->c.nbf)) {
 				failed |= JWT_CLAIM_NBF;
 			}
 		} else if (err != JWT_VALUE_ERR_NOEXIST)
